@@ -57,7 +57,8 @@ def _pulse(win, amp):
 
 
 def _actions():
-    acts = [("receive", w, a) for w in WINDOWS for a in ("small", "large")]
+    # (window D: the sub-threshold variant is the *empty* signal -- what a kernel hands over for an off-cone or invalid ray)
+    acts = [("receive", w, a) for w in WINDOWS for a in (("small", "large") if w != "D" else ("empty", "large"))]
     acts += [("read_all",), ("read_triggered",), ("read_is_hit",)]
     acts += [("full_waveform", q) for q in ("all", "cut", "far", "fine")]
     acts += [("is_hit_during", q) for q in ("all", "cut", "fine")]
@@ -188,10 +189,19 @@ def _step(st, a):
     o = st.obj
     op = a[0]
     if op == "receive":
-        t, v = _pulse(a[1], 0.25 if a[2] == "small" else 2.0)
-        o.receive(Signal(t, v, Signal.Type.voltage))
-        got = st.ant().signals[-1]
-        st.rx.append((a[1], a[2], np.array(got.times), np.array(got.values)))
+        t, v = _pulse(a[1], {"small": 0.25, "empty": 0.0}.get(a[2], 2.0))
+        if a[2] == "empty":
+            from pyrex.signals import EmptySignal
+            o.receive(EmptySignal(t, Signal.Type.voltage))
+        else:
+            o.receive(Signal(t, v, Signal.Type.voltage))
+        stored = st.ant().signals
+        if len(stored) != len(st.rx) + 1:
+            st.note.append(("signals-count", "%d signals stored after %d receives" % (len(stored), len(st.rx) + 1)))
+            st.rx.append((a[1], a[2], np.array(t), np.array(v)))
+        else:
+            got = stored[-1]
+            st.rx.append((a[1], a[2], np.array(got.times), np.array(got.values)))
     elif op in ("read_all", "read_triggered", "read_is_hit"):
         n = len(st.rx)
         if st.noisy and len(st.mat) < n:
